@@ -101,6 +101,9 @@ def Wallet.Keyed (x : Wallet) : Prop :=
 
 def Keyed (w : World) : Prop := ∀ x ∈ w.wallets, x.Keyed
 
+instance (x : Wallet) : Decidable x.Keyed := inferInstanceAs (Decidable (_ ∧ _))
+instance (w : World) : Decidable (Keyed w) := inferInstanceAs (Decidable (∀ x ∈ w.wallets, x.Keyed))
+
 theorem mem_set {α : Type} {l : List α} {i : Nat} {a b : α} (h : b ∈ l.set i a) : b = a ∨ b ∈ l := by
   induction l generalizing i with
   | nil => simp at h
@@ -204,7 +207,7 @@ theorem Keyed_exec : EffInv Keyed := by
   case close => exact hw
   case memGet => exact hw
   case memSet m => rw [exec_memSet]; exact Keyed_setWallet hw _ _ (World.wallet_keyed hw wi)
-  case emitToken mi ps => exact hw
+  case emitToken mi ps pend => exact hw
   case fresh => exact hw
   all_goals exact Keyed_of_wallets_eq hw (exec_client_wallets wi w _ rfl)
 
